@@ -125,6 +125,15 @@ def run(ctx):
                     args2 = [GC.gen_any_args(ctx.rnd) if m == "anycall" else GC.gen_arg(ctx.rnd, facade, m) for _ in range(4)]
                 for a in args2:
                     cases.append(declcorr.ChainCase(facade, [first, (m, a)]))
+    # ints beyond the float range at every argument position of the int refinements, consistent and contradictory
+    H = 10 ** 400
+    for ops in ([("call", (0,)), ("min", (H,))], [("call", (H,)), ("max", (0,))], [("call", (0,)), ("max", (5,)), ("min", (H,))],
+                [("call", (H,)), ("min", (0,))], [("min", (-H,)), ("max", (H,))], [("min", (H,)), ("max", (-H,))], [("call", (-H,)), ("min", (-H,)), ("max", (-H,))],
+                [("min", (H,)), ("call", (0,))], [("max", (-H,)), ("call", (0,))], [("call", (H,)), ("call", (H,))]):
+        cases.append(declcorr.ChainCase("int", list(ops)))
+    for ops in ([("call", (1.5,)), ("min", (float("inf"),))], [("call", (1.5,)), ("max", (float("-inf"),))], [("min", (1e308,)), ("max", (-1e308,))],
+                [("call", (1e308,)), ("precision", (2,))], [("call", (5e-324,)), ("min", (1e-323,))]):
+        cases.append(declcorr.ChainCase("float", list(ops)))
     # every UUID family as a fixed value: v4, v1/v3/v5, and the non-RFC-4122 variants whose `.version` is None
     import uuid as _uuid
     for u in GC.U4 + GC.U_NOT4 + [_uuid.UUID(int=0), _uuid.UUID(int=2 ** 128 - 1), _uuid.UUID("00000000-0000-4000-0000-000000000000"),
